@@ -22,7 +22,10 @@
 bool g_zero_on;
 size_t g_rz;
 size_t g_rsize;
-#define GHOST_RESET_ALLOC() do { g_zero_on = false; } while (0)
+#define GHOST_RESET_ALLOC() do { g_zero_on = false; } while (0) /* g_vt_moves, g_has_* stay arbitrary */
+/* ghost for the reachability canaries of the enforcing units (units/C01/allocator.c): which optional vtable entries exist */
+bool g_has_calloc;
+bool g_has_realloc;
 
 /* ---- contracts every allocator vtable function is assumed to obey ---- */
 void *vt_mem_acquire_contract(struct aws_allocator *allocator, size_t size)
@@ -43,16 +46,21 @@ __CPROVER_ensures(__CPROVER_return_value == NULL || __CPROVER_is_fresh(__CPROVER
 __CPROVER_ensures(__CPROVER_return_value != NULL && g_j < num * size ==> ((uint8_t *)__CPROVER_return_value)[g_j] == 0)
 ;
 
-/* realloc: either the same block (only when it does not have to grow) or a fresh block holding the old contents */
+/* realloc: either the same block (only when it does not have to grow) or a fresh block holding the old contents.
+ * Which of the two happens is the allocator's choice: ghost g_vt_moves, left arbitrary.  The frees clause is conditional
+ * on that choice because a replaced contract MAY free its frees targets, which must not happen when the same block is
+ * handed back. */
+bool g_vt_moves;
+#define VT_REALLOC_MOVES (newsize > oldsize || g_vt_moves)
 void *vt_mem_realloc_contract(struct aws_allocator *allocator, void *ptr, size_t oldsize, size_t newsize)
 __CPROVER_requires(newsize > 0)
 __CPROVER_requires(ptr == NULL || __CPROVER_is_freeable(ptr))
 __CPROVER_requires(g_on ==> (ptr != NULL && g_k < oldsize ==> g_old == ((const uint8_t *)ptr)[g_k]))
 __CPROVER_assigns()
-__CPROVER_frees(ptr)
+__CPROVER_frees(VT_REALLOC_MOVES : ptr)
 __CPROVER_ensures(__CPROVER_return_value == NULL ||
-                  (newsize <= oldsize && ptr != NULL && __CPROVER_pointer_equals(__CPROVER_return_value, ptr)) ||
-                  __CPROVER_is_fresh(__CPROVER_return_value, newsize))
+                  ((!VT_REALLOC_MOVES && ptr != NULL) ? __CPROVER_pointer_equals(__CPROVER_return_value, ptr)
+                                                      : __CPROVER_is_fresh(__CPROVER_return_value, newsize)))
 __CPROVER_ensures(g_on && __CPROVER_return_value != NULL && ptr != NULL && g_k < oldsize && g_k < newsize ==>
                   ((const uint8_t *)__CPROVER_return_value)[g_k] == g_old)
 ;
@@ -63,7 +71,8 @@ __CPROVER_ensures(g_on && __CPROVER_return_value != NULL && ptr != NULL && g_k <
         __CPROVER_requires(__CPROVER_obeys_contract((a)->mem_acquire, vt_mem_acquire_contract))                        \
         __CPROVER_requires(__CPROVER_obeys_contract((a)->mem_release, vt_mem_release_contract))                        \
         __CPROVER_requires((a)->mem_calloc == NULL || __CPROVER_obeys_contract((a)->mem_calloc, vt_mem_calloc_contract))      \
-        __CPROVER_requires((a)->mem_realloc == NULL || __CPROVER_obeys_contract((a)->mem_realloc, vt_mem_realloc_contract))
+        __CPROVER_requires((a)->mem_realloc == NULL || __CPROVER_obeys_contract((a)->mem_realloc, vt_mem_realloc_contract)) \
+        __CPROVER_requires(g_has_calloc == ((a)->mem_calloc != NULL) && g_has_realloc == ((a)->mem_realloc != NULL))
 #else
 #    define ALLOC_REQ(a) __CPROVER_requires((a) != NULL)
 #endif
@@ -75,17 +84,31 @@ __CPROVER_assigns()
 __CPROVER_ensures(__CPROVER_is_fresh(__CPROVER_return_value, size))
 ;
 
+/* symbolic num * symbolic size does not come back from the SAT solver: the enforcing units fix one factor each */
+#if defined(VERIF_ALLOC_ENFORCE) && defined(VERIF_CALLOC_SIZE)
+#    define CALLOC_CASE __CPROVER_requires(size == VERIF_CALLOC_SIZE)
+#elif defined(VERIF_ALLOC_ENFORCE) && defined(VERIF_CALLOC_NUM)
+#    define CALLOC_CASE __CPROVER_requires(num == VERIF_CALLOC_NUM)
+#else
+#    define CALLOC_CASE
+#endif
 void *aws_mem_calloc(struct aws_allocator *allocator, size_t num, size_t size)
 ALLOC_REQ(allocator)
+CALLOC_CASE
 __CPROVER_requires(num > 0 && size > 0 && !__CPROVER_overflow_mult(num, size))
 __CPROVER_assigns()
 __CPROVER_ensures(__CPROVER_is_fresh(__CPROVER_return_value, num * size))
 __CPROVER_ensures(g_j < num * size ==> ((uint8_t *)__CPROVER_return_value)[g_j] == 0)
 ;
 
+#ifdef VERIF_ALLOC_ENFORCE
+#    define RELEASE_PTR_REQ __CPROVER_requires(ptr == NULL || __CPROVER_is_fresh(ptr, g_rsize))
+#else
+#    define RELEASE_PTR_REQ __CPROVER_requires(ptr == NULL || __CPROVER_is_freeable(ptr))
+#endif
 void aws_mem_release(struct aws_allocator *allocator, void *ptr)
 ALLOC_REQ(allocator)
-__CPROVER_requires(ptr == NULL || __CPROVER_is_freeable(ptr))
+RELEASE_PTR_REQ
 __CPROVER_requires(g_zero_on ==> (ptr != NULL && g_rz < g_rsize ==> ((const uint8_t *)ptr)[g_rz] == 0))
 __CPROVER_assigns()
 __CPROVER_frees(ptr)
@@ -93,11 +116,23 @@ __CPROVER_ensures(1)
 ;
 
 
+/* a block that does not exist has size 0 (with *ptr == NULL and oldsize > 0 the emulation path of aws_mem_realloc would
+ * report success for newsize <= oldsize and leave *ptr == NULL) */
 #ifdef VERIF_ALLOC_ENFORCE
 #    define REALLOC_PTR_REQ __CPROVER_requires(__CPROVER_is_fresh(ptr, sizeof(*ptr)))                                  \
-                            __CPROVER_requires(*ptr == NULL || __CPROVER_is_fresh(*ptr, oldsize))
+                            __CPROVER_requires(*ptr == NULL ? oldsize == 0 : __CPROVER_is_fresh(*ptr, oldsize))        \
+                            REALLOC_ENFORCE_CASE
 #else
-#    define REALLOC_PTR_REQ __CPROVER_requires(ptr != NULL) __CPROVER_requires(*ptr == NULL || __CPROVER_is_freeable(*ptr))
+#    define REALLOC_PTR_REQ __CPROVER_requires(ptr != NULL) __CPROVER_requires(*ptr == NULL ? oldsize == 0 : __CPROVER_is_freeable(*ptr))
+#endif
+/* The emulation path (allocator without mem_realloc) calls memcpy(newptr, *ptr, oldsize) also when *ptr == NULL and
+ * oldsize == 0: no byte is touched, but memcpy's pointer arguments must not be NULL even for n == 0 (CBMC's model and
+ * UBSan's nonnull check both flag it).  That corner is excluded from the enforcing unit mem_realloc and checked by the
+ * unit mem_realloc_null_emulated, where this single obligation is listed as ignored with the reason. */
+#if defined(VERIF_REALLOC_NULL_EMULATED)
+#    define REALLOC_ENFORCE_CASE __CPROVER_requires(*ptr == NULL && allocator->mem_realloc == NULL && newsize > 0)
+#else
+#    define REALLOC_ENFORCE_CASE __CPROVER_requires(!(*ptr == NULL && allocator->mem_realloc == NULL && newsize > 0))
 #endif
 
 /* never fails in this version of the library (OOM aborts).  newsize == 0 releases. */
@@ -106,18 +141,23 @@ ALLOC_REQ(allocator)
 REALLOC_PTR_REQ
 __CPROVER_requires(g_on ==> (*ptr != NULL && g_k < oldsize ==> g_old == ((const uint8_t *)*ptr)[g_k]))
 __CPROVER_assigns(*ptr)
-__CPROVER_frees(*ptr)
+__CPROVER_frees(newsize == 0 || VT_REALLOC_MOVES : *ptr)
 __CPROVER_ensures(__CPROVER_return_value == AWS_OP_SUCCESS)
 __CPROVER_ensures(newsize == 0 ==> *ptr == NULL)
-__CPROVER_ensures(newsize > 0 ==> ((newsize <= oldsize && __CPROVER_old(*ptr) != NULL && __CPROVER_pointer_equals(*ptr, __CPROVER_old(*ptr))) ||
-                                  __CPROVER_is_fresh(*ptr, newsize)))
+__CPROVER_ensures(newsize > 0 ==> (__CPROVER_is_fresh(*ptr, newsize) ||
+                                  (newsize <= oldsize && __CPROVER_old(*ptr) != NULL && __CPROVER_pointer_equals(*ptr, __CPROVER_old(*ptr)))))
 __CPROVER_ensures(g_on && newsize > 0 && __CPROVER_old(*ptr) != NULL && g_k < oldsize && g_k < newsize ==>
                   ((const uint8_t *)*ptr)[g_k] == g_old)
 ;
 
 /* common.c: memset + asm barrier.  Every byte is zero afterwards (witness g_rz). */
+#ifdef VERIF_ALLOC_ENFORCE
+#    define SECURE_ZERO_REQ __CPROVER_requires(pBuf == NULL || __CPROVER_is_fresh(pBuf, bufsize))
+#else
+#    define SECURE_ZERO_REQ __CPROVER_requires(bufsize == 0 || pBuf == NULL || __CPROVER_w_ok(pBuf, bufsize))
+#endif
 void aws_secure_zero(void *pBuf, size_t bufsize)
-__CPROVER_requires(bufsize == 0 || pBuf == NULL || __CPROVER_w_ok(pBuf, bufsize))
+SECURE_ZERO_REQ
 __CPROVER_assigns(bufsize > 0 && pBuf != NULL : __CPROVER_object_upto(pBuf, bufsize))
 __CPROVER_ensures(pBuf != NULL && g_rz < bufsize ==> ((const uint8_t *)pBuf)[g_rz] == 0)
 ;
